@@ -98,19 +98,31 @@ for name in sorted(os.listdir(corpus))[:200000]:
         res["samples"].append({"class": "coverage-increasing corpus input", "case_text": json.dumps({"target": args.target, "file": name, "hex": b.hex()})})
 res["hashes"] = sorted(hashes)
 res["nontrivial"] = len(hashes)
-# crash / timeout / oom artifacts
+# crash / timeout / oom artifacts: each is confirmed by running the target on that single input again (a wall-clock
+# timeout or an out-of-memory kill on a loaded machine does not reproduce; a disagreement with the oracle or a panic does)
+unconfirmed = 0
 for name in sorted(os.listdir(arts)):
     p = os.path.join(arts, name)
     b = open(p, "rb").read()
     kind = name.split("-")[0]
-    msg = "libFuzzer %s artifact in the %s campaign" % (kind, args.target)
-    m = re.search(r"FZ_VIOLATION ([^\n]{0,600})", log)
+    try:
+        again = subprocess.run([binary, "-timeout=120", "-rss_limit_mb=4096", p], env=env, stdout=subprocess.PIPE, stderr=subprocess.STDOUT, text=True, errors="replace", cwd=work, timeout=600)
+        reproduced, out2 = again.returncode != 0, again.stdout
+    except subprocess.TimeoutExpired:
+        reproduced, out2 = True, ""
+    if not reproduced:
+        unconfirmed += 1
+        continue
+    msg = "libFuzzer %s artifact in the %s campaign, reproduced on a single-input run" % (kind, args.target)
+    m = re.search(r"FZ_VIOLATION ([^\n]{0,600})", out2)
     if m:
-        msg += " (first reported: %s)" % m.group(1)
+        msg += ": %s" % m.group(1)
     if kind == "timeout":
-        msg += "; the input is cheap for the reference model but exceeded 60 s in the implementation"
+        msg += "; the input is cheap for the reference model but exceeded the time limit in the implementation twice"
     if len(res["violations"]) < 5:
         res["violations"].append({"case_text": json.dumps({"target": args.target, "file": name, "hex": b.hex()}), "msg": msg, "from": "libFuzzer campaign"})
+if unconfirmed:
+    res["classes"]["artifacts_not_reproduced"] = unconfirmed
 if execs == 0 and not res["violations"]:
     broken("libFuzzer made no executions: " + log[-600:])
 shutil.rmtree(work, ignore_errors=True)
